@@ -40,6 +40,12 @@ CHECKS = {
  "C19": dict(engine="B", category="translation_validation", technique="SMT equivalence (z3) of the four Functions and all attribute expressions of the CachedModel (real save_model/load_model round trip on disk) against the fresh Model, for all inputs / parameter values",
    text="7 models x 4 option sets: transfer_model(cache=True) twice on a scratch folder; names, order, types, outputs, delay states, alias relation compared concretely; z3 proves Functions and parameter-dependent attributes equal for all values. codegen: names/metadata only (thorough).",
    note="pickle/CasADi serialisation executed for real; numeric agreement of compiled shared libraries is outside the claim.", ref="4/C19"),
+ "C20": dict(engine="A", category="model_checking", technique="CrossHair symbolic execution (z3) of one real transfer_model/load_model step from an arbitrary folder/cache state (symbolic mtimes, changed-file flags, stored vs current version and options, cache vs codegen) against stubs of os.walk/getmtime/open/pickle.load; 'Confirmed over all paths' per shard; counterexamples replayed with real files, os.utime-controlled mtimes and the unstubbed transfer_model",
+   text="One inductive step covers every history of edits/additions/option changes/version changes: from ANY state in which every file that differs from the cached snapshot is strictly newer than the cache file, transfer_model returns the cached model only if sources, version and options are all current, and otherwise recompiles and rewrites the cache; never an exception. Files: model file, an optional second (old or newly added) file, a library file and a file in a library sub-folder; options: a Boolean, a string-or-None and library_folders.",
+   note="mtimes range over a window wide enough for every order pattern (the code only compares them); mtime_check=True; deletion of files is not in the property's event list; the open library_folders finding is kept separate so the other invalidation rules stay covered in those shards.", ref="4/C20"),
+ "C21": dict(engine="A", category="model_checking", technique="CrossHair symbolic execution (z3) of the real transfer_model/load_model fall-back with the reader's observation of the cache file (absent / empty / strict prefix / complete) and the unpickling exception symbolic; plus a real cache file truncated at ~50 offsets through the unstubbed transfer_model",
+   text="For every observation a reader can make of a cache file whose write was interrupted or is in progress, every exception the unpickler is documented to raise on damaged input, cache and codegen, current and other version, and every mtime order: transfer_model returns the recompiled model and rewrites the cache (a complete, current file may be used); it never propagates the exception.",
+   note="Crash points / interleavings are abstracted to the reader's observation of the single cache file; per-byte offsets are exercised only in the real replay; true two-process interleavings are outside the claim.", ref="4/C21"),
  "C22": dict(engine="B", category="translation_validation", technique="enumerated duration dependencies through the real transfer_model for accept/reject; SMT equivalence (z3) of delay_arguments_function outputs with the source delay() arguments",
    text="Durations drawing on each variable category alone and in pairs, inside/outside for-loops, variable or expression delayed, under several option sets: rejection must be exactly when a disallowed category occurs; for accepted models z3 proves every (expression, duration) output equal to the source arguments for all values.",
    note="'depends on' = syntactic occurrence; bounded family.", ref="4/C22"),
